@@ -3,6 +3,26 @@
 import json, sys
 ALL = [f"C{i:02d}" for i in range(1, 21)]
 CLAIMED = {
+ "C12": dict(
+   technique="mutation-based generation over parseable sources (re-layout, comment insertion, redundant parentheses, nested format directives) with round-trip / metamorphic oracles; formatter behind a killable worker process",
+   text="Exploration. Every repository source under several option sets, generated surface terms over the whole grammar and generated core programs are mutated and formatted; the formatter must return, its output must parse, and the desugared structure plus directive payloads must be identical; through the CLI an unparseable file stays byte-identical with a non-zero exit. A per-request watchdog turns exponential layout searches into `inconclusive`. Known open finding F13 (panic on a block comment before code at the start of a thunk) is tolerated by signature.",
+   note="trusted base: the repository's bitter `ugly` rendering applied to both sides; S-scan; worker-process fence (8 s)",
+   ref="§3 C12"),
+ "C13": dict(
+   technique="mutation-based generation (comments of 10 kinds at every class of token gap) with an independent scanner comparing comment and code-atom streams of input and output",
+   text="Exploration. Comment sequence (kind, content, order) must be preserved, code atoms must be preserved by value and order after symmetric pun normalisation, verbatim payloads must be copied byte-identically, and no comment may be moved to another syntactic element past code (both its neighbouring atoms and its neighbouring separators change). Known open findings (comments inside metadata, comments inside verbatim payloads, listed displacement shapes) are tolerated by exact signature.",
+   note="trusted base: S-scan; comment content compared modulo trailing spaces / per-line indentation of block comments",
+   ref="§3 C13"),
+ "C14": dict(
+   technique="metamorphic testing: fmt∘fmt = fmt, fmt(x) = fmt(x′) for spacing-related pairs, and differential agreement of `fmt --check` with `fmt` through the real CLI",
+   text="Exploration. Over the same generated and mutated sources as C12: second-pass equality, exactly one trailing newline, no cycles within 4 passes, sources differing only in horizontal spacing format identically, and `fmt --check` reports exactly the files `fmt` then modifies. Non-idempotence is classified by how the second pass differs; the classes seen on the unchanged tree are listed as open findings (F16b, F19–F22), any other class is a violation.",
+   note="trusted base: byte comparison; classification of differences in props/c14.rs",
+   ref="§3 C14"),
+ "C16": dict(
+   technique="repeated execution in fresh processes (randomised SipHash keys, ASLR, varied environment order / HOME / cwd) with byte comparison",
+   text="Exploration. check, run, fmt --check and build -t zir|zasm|asm|llvm are run several times in fresh processes on repository executables, failing fixtures, generated rejected programs with several independent errors, a block with many independent bindings and generated core programs; stdout, stderr and exit status must be byte-identical.",
+   note="trusted base: the OS gives each process fresh hash seeds and addresses; thread ids in Rust panic messages are masked",
+   ref="§3 C16"),
  "C05": dict(
    technique="exhaustive enumeration (all 8-bit operand pairs) + boundary sets + proptest random operands against Rust's same-named primitives; boundary-value literal programs",
    text="Exploration with an exhaustive core. Every operand pair of Int8 and UInt8 under all 8 binary roles and to_string (1.05 M invocations) is compared with Rust's primitive; wider types get boundary sets squared and random pairs, floats special values squared and random bit patterns (bit-exact, any NaN = any NaN, rendering must parse back to the same bits). Source-level literals within 2 of every range boundary at every type, defaulting and absence of implicit conversion are decided by accept/reject and the printed value.",
